@@ -16,5 +16,6 @@ CONSTANTS
   SummaryStateless = TRUE
   WeightsRebuilt = FALSE
   FeedCopied = TRUE
+  OutlierColumnsOwn = TRUE
 INVARIANT Functional
 CHECK_DEADLOCK FALSE
